@@ -169,6 +169,16 @@ def make_family(log):
             self._l('Extra')
             return 'extra'
 
+        # overrides that change whether the implementation asks for the
+        # caller: the flag belongs to the implementation, not to the member
+        def dbus_Echo(self, s, dbusCaller=None):
+            self._l('Echo', s, dbusCaller)
+            return s
+
+        def dbus_Who(self):
+            self._l('Who', None)
+            return 'nobody'
+
         # the same interface as the base class binds other members of
         @O.dbusMethod('org.ex.I2', 'More')
         def more_derived(self):
@@ -288,6 +298,8 @@ def _outcome(obj, iface, member, arg):
     """(log entry, reply description) for a dispatched call"""
     name = obj
     if member == 'Echo':
+        if obj == 'derived':
+            return ((name, 'Echo', arg[0], CALLER), ('ret', 's', [arg[0]]))
         return ((name, 'Echo', arg[0]), ('ret', 's', [arg[0]]))
     if member == 'Pair':
         return ((name, 'Pair', 1, 2), ('ret', 'ii', [2, 1]))
@@ -310,6 +322,8 @@ def _outcome(obj, iface, member, arg):
     if member == 'Two':
         return ((name, 'Two', 'a', 'b'), ('ret', 's', ['ab']))
     if member == 'Who':
+        if obj == 'derived':
+            return ((name, 'Who', None), ('ret', 's', ['nobody']))
         return ((name, 'Who', CALLER), ('ret', 's', [CALLER]))
     if member == 'WhoArg':
         return ((name, 'WhoArg', 'w', CALLER), ('ret', 's',
